@@ -233,7 +233,7 @@ ob("c05::div_f64_exact_clauses", "C05", timeout=600, functions=["Div<&f64> for &
 ob("c05::div_f64_pow2_exact", "C05", timeout=600, functions=["Div<&f64> for &TwoFloat"])
 ob("c05::div_zero_numerator_f64", "C05", timeout=900, functions=["Div<&f64> for &TwoFloat", "DivAssign<&f64> for TwoFloat"])
 ob("c05::div_zero_numerator_tf", "C05", tier="thorough", timeout=2400, functions=["Div<&TwoFloat> for &TwoFloat", "Div<&TwoFloat> for &f64"])
-ob("c05::long_division_accuracy_sample", "C05", cls="ground", native=True, functions=["Div<&TwoFloat> for &TwoFloat", "Div<&TwoFloat> for &f64", "DivAssign<&TwoFloat> for TwoFloat", "TwoFloat::recip (16*2^-106 on 600 sample pairs)"])
+ob("c05::long_division_accuracy_sample", ["C05", "C01"], cls="ground", native=True, functions=["Div<&TwoFloat> for &TwoFloat", "Div<&TwoFloat> for &f64", "DivAssign<&TwoFloat> for TwoFloat", "TwoFloat::recip (16*2^-106 on 600 sample pairs)"])
 ob("c05::long_division_exact_points", "C05", cls="ground", native=True, functions=["Div<&TwoFloat> for &TwoFloat", "DivAssign<&TwoFloat> for TwoFloat", "TwoFloat::recip"])
 ob("c19::integers_exact", "C19", cls="ground", native=True, functions=["Rem/RemAssign impls", "TwoFloat::div_euclid", "TwoFloat::rem_euclid"])
 ob("c19::tolerance_sample", "C19", cls="ground", native=True, functions=["Rem impls, TwoFloat::div_euclid, TwoFloat::rem_euclid (tolerance clause on 500 sample pairs)"])
@@ -253,7 +253,7 @@ ob("c20::text_format_sample", "C20", cls="ground", native=True, functions=["Disp
 # ------------------------------------------------------------------ accuracy clauses on a finite reference sample (ground)
 for _p, _fs in (("C13", "sqrt cbrt hypot powi"), ("C14", "exp exp2 exp_m1 powf"), ("C15", "ln log2 log10 ln_1p"), ("C16", "sin cos tan"),
                 ("C17", "asin acos atan atan2"), ("C18", "sinh cosh tanh asinh acosh atanh")):
-    ob("acc::%s_accuracy_sample" % _p.lower(), _p, cls="ground", native=True, functions=["accuracy clause on the reference sample: " + _fs])
+    ob("acc::%s_accuracy_sample" % _p.lower(), [_p, "C01"], cls="ground", native=True, functions=["accuracy clause (and validity of the result) on the reference sample: " + _fs])
 
 ob("scan::std_dependent_items", "C11", cls="ground", scan=True, kani_only=True, functions=["inventory: cfg(feature = \"std\") / target-dependent items outside test modules"])
 
